@@ -66,11 +66,17 @@ def configs(rng, tier):
         for style in ("ClearSpeak", "SimpleSpeak"):
             for verb in ("Terse", "Medium", "Verbose"):
                 out.append({"Language": lang, "SpeechStyle": style, "Verbosity": verb})
-    extra = [("CapitalLetters_UseWord", "false"), ("CapitalLetters_UseWord", "true"), ("SpeechOverrides_CapitalLetters", "cap"),
+    # TTS: the engine is chosen case-insensitively ("None" is the spelling of the interface documentation), the rules compare
+    # the raw value: both spellings must give plain text
+    extra = [("TTS", "None"), ("TTS", "NONE"), ("TTS", "none"),
+             ("CapitalLetters_UseWord", "false"), ("CapitalLetters_UseWord", "true"), ("SpeechOverrides_CapitalLetters", "cap"),
              ("CapitalLetters_Pitch", "20"), ("CapitalLetters_Beep", "true"), ("SubjectArea", "General"), ("MathRate", "80"), ("PauseFactor", "200")]
     for c in out:
         k, v = rng.choice(extra)
         c[k] = v
+    # the engine preference in its documented spelling, once per language
+    for lang in langs:
+        out.append({"Language": lang, "SpeechStyle": "ClearSpeak", "Verbosity": "Medium", "TTS": rng.choice(["None", "NONE"])})
     if tier == "quick":
         keep = [c for c in out if c["Verbosity"] == "Medium"]
         rest = [c for c in out if c["Verbosity"] != "Medium"]
@@ -83,6 +89,8 @@ def oracle(res):
     bodies = list(X.FIXED) + [X.gen(rng, 3) for _ in range(12 if res.tier == "quick" else 150)]
     bodies += ["<mrow><mi>x</mi><mo>+</mo><mo>%s</mo><mi>%s</mi></mrow>" % (rng.choice(ODD_CHARS), rng.choice(ODD_CHARS)) for _ in range(6 if res.tier == "quick" else 40)]
     bodies += ["<mtext>a%sb</mtext>" % c for c in ("&#xF8FD;", "&#xF8FE;", "&#xF8FA;&#xF8FA;", "&#xE00A;")]
+    # an expression that is a single token: each kind alone must be spoken
+    bodies += ["<mi>x</mi>", "<mi>Q</mi>", "<mn>5</mn>", "<mo>+</mo>", "<mtext>if</mtext>", "<mi>&#x3B1;</mi>", "<mi mathvariant='bold'>v</mi>"]
     # invisible operators inside multi-character tokens, and leading an expression
     for inv in ("&#x2061;", "&#x2062;", "&#x2063;", "&#x2064;"):
         bodies += ["<mrow><mtext>1%s1/2 cups</mtext><mo>+</mo><mn>3%s12</mn></mrow>" % (inv, inv),
